@@ -856,6 +856,7 @@ func (fr *Frame) applyContractSig(fc *FuncContract, callee *ssa.Function, sig *t
 		c.Trust("trusted contract of " + fc.Key)
 	}
 	// havoc according to the frame
+	fr.callStamp = c.n
 	if !fc.Pure {
 		na := c.Fresh("alloc", SInt)
 		c.Assume(Le(st.alloc, na))
@@ -931,7 +932,16 @@ func (fr *Frame) applyContractSig(fc *FuncContract, callee *ssa.Function, sig *t
 			splitC = Term{}
 		}
 	}
-	for _, en := range append(append([]Clause(nil), fc.Ensures...), fc.Defines...) {
+	calleeName := ""
+	if callee != nil && callee.Pkg != nil {
+		calleeName = callee.Pkg.Pkg.Name() + "." + callee.RelString(callee.Pkg.Pkg)
+	}
+	for ei, en := range append(append([]Clause(nil), fc.Ensures...), fc.Defines...) {
+		if ei < len(fc.Ensures) && calleeName != "" && e.knownFailing[calleeName+"#ensures#"+labelOr(en.Label, ei+1)] {
+			// a postcondition recorded as a known finding does not hold: callers must not rely on it
+			c.Note(fmt.Sprintf("%s: postcondition %q of %s is a known finding and is not assumed here", fr.fn.Name(), en.Label, fc.Key))
+			continue
+		}
 		var t Term
 		var err error
 		if splitC.S != "" {
@@ -983,6 +993,23 @@ func (fr *Frame) recordResultContent(e Expr, env *SpecEnv) {
 			return
 		}
 		if n.Op != "===" {
+			return
+		}
+		if sel, ok := n.X.(*ESel); ok {
+			// "obj.ghost === E": remember E as the symbolic value of the ghost field
+			func() {
+				defer func() { recover() }()
+				base := env.eval(sel.X)
+				hk, rk, ok := env.ghostKey(base, sel.Name)
+				if !ok {
+					return
+				}
+				sq := env.toSeq(env.eval(n.Y))
+				if fr.cur.gcontent == nil {
+					fr.cur.gcontent = map[string]*ghostRec{}
+				}
+				fr.cur.gcontent[rk] = &ghostRec{heapTerm: fr.x.heapGet(fr.cur, hk).S, seq: sq}
+			}()
 			return
 		}
 		id, ok := n.X.(*EIdent)
@@ -1192,6 +1219,7 @@ func (fr *Frame) freshResultMemory(rs *types.Tuple, pre *State, res *Value, fc *
 		r := Term{S: "r$f", Sort: SInt}
 		c.Assume(Forall([]Term{r}, Implies(Lt(r, pre.alloc), Eq(Select(nw, r), Select(old, r))), Select(nw, r)))
 		c.Assume(e.rangeAxiom(key, nw))
+		c.frameMem[nw.S] = frameRec{old: old.S, stamp: fr.callStamp + 1}
 		x.heapSetFresh(fr.cur, key, nw)
 	}
 	for _, d := range directs {
